@@ -6,6 +6,7 @@ TRXD model; uses the round-trip theorems of C01.  Lemmas: `OsmoVerif.Lemmas.Trxd
 -/
 import OsmoVerif.Props.C01
 import OsmoVerif.Lemmas.TrxdDump
+import OsmoVerif.Lemmas.TrxdDumpHist
 set_option linter.unusedSimpArgs false
 
 namespace OsmoVerif.Props.C15
@@ -142,7 +143,7 @@ theorem appendAll_valid (ms : List Msg) (hv : ∀ m ∈ ms, MsgValid m) (d : Byt
   | cons m ms ih =>
     have hd := (dump_valid m (hv m (List.mem_cons_self ..))).1
     have := ih (fun m' hm' => hv m' (List.mem_cons_of_mem _ hm')) (d ++ (stored m).1.bytes)
-    simp only [appendAll, appendMsg, hd, bind, Except.bind, pure, Except.pure, write_at_end, this,
+    simp only [appendAll, appendMsg, File.seekEnd, hd, bind, Except.bind, pure, Except.pure, write_at_end, this,
       List.map_cons, recsBytes_cons, List.append_assoc]
 
 theorem capture_of (ms : List Msg) (hv : ∀ m ∈ ms, MsgValid m) (p : Bytes) (hp : IsCutTail p) :
@@ -297,6 +298,302 @@ theorem truncated_skip_count (ms : List Msg) (hv : ∀ m ∈ ms, MsgValid m) (cu
   · obtain ⟨f', hf'⟩ := parseAll_beyond c 0 s count (by omega)
     exact ⟨f, k, f', ha, hk, fun h => by omega, fun _ => hf'⟩
 
+/-! ### histories on ONE capture-file object
+
+`runHist f ops` runs the operations one after the other on the same object (content and cursor as the
+previous operation left them); `specHist d ops` answers every read with a fresh reader on the current
+content. -/
+
+/-- History independence, for EVERY content, cursor and history (valid or invalid messages, out-of-range
+accesses, reads on garbage, crashes, appends after reads): no read method raises, every operation
+answers exactly what the stored bytes alone determine (a read: what a fresh reader returns on the
+current content; earlier reads, failed or out-of-range accesses and the cursor they left never
+influence a later result), and the content evolves by appending records at its end / cutting only. -/
+theorem history_independence (f : File) (ops : List Op) :
+    ∃ fe, runHist f ops = ((specHist f.data ops).1, some fe) ∧ fe.data = (specHist f.data ops).2 :=
+  runHist_spec ops f
+
+/-- A read after ANY history on the object returns what a fresh reader returns on the bytes stored at
+that moment. -/
+theorem read_after_history (f : File) (pre : List Op) (idx : Nat) (skip count : Option Nat) :
+    ∃ fe r f1 l f2, runHist f pre = ((specHist f.data pre).1, some fe) ∧
+      parseMsg ⟨fe.data, 0⟩ idx = .ok (r, f1) ∧
+      (runHist f (pre ++ [.parseMsg idx])).1 = (runHist f pre).1 ++ [.res r] ∧
+      parseAll ⟨fe.data, 0⟩ skip count = .ok (l, f2) ∧
+      (runHist f (pre ++ [.parseAll skip count])).1 = (runHist f pre).1 ++ [.all l] := by
+  obtain ⟨fe, h1, hd⟩ := runHist_spec pre f
+  obtain ⟨r, f1, hr, _⟩ := parseMsg_total ⟨fe.data, 0⟩ idx
+  obtain ⟨l, f2, hl, _⟩ := parseAll_total ⟨fe.data, 0⟩ skip count
+  obtain ⟨fe2, h2, _⟩ := runHist_spec (pre ++ [.parseMsg idx]) f
+  obtain ⟨fe3, h3, _⟩ := runHist_spec (pre ++ [.parseAll skip count]) f
+  refine ⟨fe, r, f1, l, f2, h1, hr, ?_, hl, ?_⟩
+  · rw [h2, h1, specHist_append]
+    simp only [specHist, specStep, ← hd, hr]
+  · rw [h3, h1, specHist_append]
+    simp only [specHist, specStep, ← hd, hl]
+
+/-- what an operation must answer when `ms` are the messages appended so far: the statements of
+`parse_msg_idx` (and `None` beyond the stored messages) and `skip_count_slice` -/
+def expectedAns (ms : List Msg) : Op → Ans
+  | .appendMsg _ => .done
+  | .appendAll _ => .done
+  | .parseMsg i => .res (if h : i < ms.length then .msg (carriedMsg ms[i]) else .none)
+  | .parseAll skip count =>
+    .all (match skip with
+          | none => some (takeCount count (ms.map carriedMsg))
+          | some s => if s ≤ ms.length then some (takeCount count ((ms.drop s).map carriedMsg)) else none)
+  | .truncate _ => .cut
+
+/-- the messages appended after an operation -/
+def storedAfter (ms : List Msg) : Op → List Msg
+  | .appendMsg m => ms ++ [m]
+  | .appendAll l => ms ++ l
+  | _ => ms
+
+/-- the answers the property demands of a history, `ms` being the messages appended before it -/
+def expectedHist (ms : List Msg) : List Op → List Ans
+  | [] => []
+  | op :: ops => expectedAns ms op :: expectedHist (storedAfter ms op) ops
+
+/-- the messages appended by a history -/
+def storedBy (ms : List Msg) : List Op → List Msg
+  | [] => ms
+  | op :: ops => storedBy (storedAfter ms op) ops
+
+/-- operations of the property's histories: appends of valid messages, reads with count >= 1 -/
+def ValidOp : Op → Prop
+  | .appendMsg m => MsgValid m
+  | .appendAll l => ∀ m ∈ l, MsgValid m
+  | .parseMsg _ => True
+  | .parseAll _ count => ∀ c, count = some c → 1 ≤ c
+  | .truncate _ => False
+
+instance (op : Op) : Decidable (ValidOp op) := by
+  cases op with
+  | appendMsg m => unfold ValidOp; infer_instance
+  | appendAll l => unfold ValidOp; infer_instance
+  | parseMsg i => unfold ValidOp; infer_instance
+  | parseAll s count =>
+    cases count with
+    | none => exact isTrue (fun c h => by cases h)
+    | some c =>
+      by_cases h : 1 ≤ c
+      · exact isTrue (fun c' h' => by cases h'; exact h)
+      · exact isFalse (fun h' => h (h' c rfl))
+  | truncate n => unfold ValidOp; infer_instance
+
+/-- read operations (with count >= 1) -/
+def ReadOp : Op → Prop
+  | .parseMsg _ => True
+  | .parseAll _ count => ∀ c, count = some c → 1 ≤ c
+  | _ => False
+
+/-- the capture file holding exactly the messages `ms` -/
+def fileOf (ms : List Msg) : Bytes := recsBytes (ms.map (fun m => (stored m).1))
+
+theorem fileOf_appendAll (ms : List Msg) (hv : ∀ m ∈ ms, MsgValid m) :
+    appendAll ⟨[], 0⟩ ms = .ok ⟨fileOf ms, (fileOf ms).length⟩ := by
+  have ha := appendAll_valid ms hv []
+  simpa only [List.nil_append, List.length_nil, fileOf] using ha
+
+theorem fileOf_append (a b : List Msg) : fileOf (a ++ b) = fileOf a ++ fileOf b := by
+  simp only [fileOf, List.map_append, recsBytes_append]
+
+theorem dumpAll_valid (l : List Msg) (hv : ∀ m ∈ l, MsgValid m) : dumpAll l = (none, fileOf l) := by
+  induction l with
+  | nil => rfl
+  | cons m l ih =>
+    have hd := (dump_valid m (hv m (List.mem_cons_self ..))).1
+    have := ih (fun m' hm' => hv m' (List.mem_cons_of_mem _ hm'))
+    simp only [dumpAll, hd, this, fileOf, List.map_cons, recsBytes_cons]
+
+/-- a fresh reader on content made of the complete records of `st` followed by a cut tail -/
+theorem fresh_read {data : Bytes} {st : List Msg} (c : Capture data (st.map stored)) (op : Op)
+    (hr : ReadOp op) :
+    (specStep data op).2 = data ∧
+    ((specStep data op).1 = expectedAns st op ∨
+      ∃ s cnt, op = .parseAll (some s) cnt ∧ st.length < s ∧ (specStep data op).1 = .all (some [])) := by
+  cases op with
+  | appendMsg m => exact absurd hr (by simp [ReadOp])
+  | appendAll l => exact absurd hr (by simp [ReadOp])
+  | truncate n => exact absurd hr (by simp [ReadOp])
+  | parseMsg i =>
+    by_cases hi : i < st.length
+    · obtain ⟨f', hf'⟩ := parseMsg_idx c 0 i (by simpa using hi)
+      refine ⟨by simp only [specStep, hf'], Or.inl ?_⟩
+      simp only [specStep, hf', expectedAns, hi, dite_true, List.getElem_map, stored]
+    · obtain ⟨f', hf'⟩ := parseMsg_beyond c 0 i (by simp; omega)
+      refine ⟨by simp only [specStep, hf'], Or.inl ?_⟩
+      simp only [specStep, hf', expectedAns, hi, dite_false]
+  | parseAll skip count =>
+    have hc : ∀ c, count = some c → 1 ≤ c := hr
+    cases skip with
+    | none =>
+      obtain ⟨f', hf'⟩ := parseAll_noskip c 0 count
+      refine ⟨by simp only [specStep, hf'], Or.inl ?_⟩
+      simp only [specStep, hf', expectedAns, loopSpec_takeCount count _ hc, stored_msgs]
+    | some s =>
+      by_cases hs : s ≤ st.length
+      · obtain ⟨f', hf'⟩ := parseAll_skip c 0 s count (by simpa using hs)
+        refine ⟨by simp only [specStep, hf'], Or.inl ?_⟩
+        simp only [specStep, hf', expectedAns, loopSpec_takeCount count _ hc, hs, if_true, ← List.map_drop,
+          stored_msgs]
+      · obtain ⟨f', hf'⟩ := parseAll_beyond c 0 s count (by simp; omega)
+        rcases hf' with hf' | hf'
+        · refine ⟨by simp only [specStep, hf'], Or.inl ?_⟩
+          simp only [specStep, hf', expectedAns, hs, if_false]
+        · exact ⟨by simp only [specStep, hf'], Or.inr ⟨s, count, rfl, by omega, by simp only [specStep, hf']⟩⟩
+
+/-- on an uncut capture a skip beyond the stored messages is always the range error -/
+theorem fresh_read_uncut (st : List Msg) (hv : ∀ m ∈ st, MsgValid m) (op : Op) (hr : ReadOp op) :
+    specStep (fileOf st) op = (expectedAns st op, fileOf st) := by
+  have c := capture_of st hv [] (Or.inl rfl)
+  simp only [List.append_nil, stored_recs] at c
+  obtain ⟨h2, h1⟩ := fresh_read c op hr
+  rcases h1 with h1 | ⟨s, cnt, rfl, hs, _⟩
+  · exact Prod.ext h1 h2
+  · obtain ⟨f', hf'⟩ := seek2msg_beyond_eof c (by rw [stored_recs]) 0 s (by simpa using hs)
+    have hns : ¬ s ≤ st.length := by omega
+    simp only [specStep, parseAll, hf', bind, Except.bind, pure, Except.pure, Bool.false_eq_true,
+      not_false_eq_true, if_true, expectedAns, hns, if_false, fileOf]
+
+theorem specStep_valid (ms : List Msg) (hv : ∀ m ∈ ms, MsgValid m) (op : Op) (ho : ValidOp op) :
+    specStep (fileOf ms) op = (expectedAns ms op, fileOf (storedAfter ms op)) ∧
+    (∀ m ∈ storedAfter ms op, MsgValid m) := by
+  cases op with
+  | appendMsg m =>
+    have hm : MsgValid m := ho
+    have hd := (dump_valid m hm).1
+    have h1 : fileOf [m] = (stored m).1.bytes := by
+      simp only [fileOf, List.map_cons, List.map_nil, recsBytes, List.flatten_cons, List.flatten_nil, List.append_nil]
+    refine ⟨?_, ?_⟩
+    · simp only [specStep, hd, expectedAns, storedAfter, fileOf_append, h1]
+    · intro m' hm'
+      rcases List.mem_append.mp hm' with h | h
+      · exact hv m' h
+      · rw [List.mem_singleton.mp h]; exact hm
+  | appendAll l =>
+    have hl : ∀ m ∈ l, MsgValid m := ho
+    refine ⟨?_, ?_⟩
+    · simp only [specStep, dumpAll_valid l hl, expectedAns, storedAfter, fileOf_append]
+    · intro m' hm'
+      rcases List.mem_append.mp hm' with h | h
+      · exact hv m' h
+      · exact hl m' h
+  | parseMsg i => exact ⟨fresh_read_uncut ms hv _ trivial, hv⟩
+  | parseAll skip count => exact ⟨fresh_read_uncut ms hv _ ho, hv⟩
+  | truncate n => exact absurd ho (by simp [ValidOp])
+
+theorem specHist_valid : ∀ (ops : List Op) (ms : List Msg), (∀ m ∈ ms, MsgValid m) → (∀ op ∈ ops, ValidOp op) →
+    specHist (fileOf ms) ops = (expectedHist ms ops, fileOf (storedBy ms ops)) ∧
+    (∀ m ∈ storedBy ms ops, MsgValid m) := by
+  intro ops
+  induction ops with
+  | nil => intro ms hv _; exact ⟨rfl, hv⟩
+  | cons op ops ih =>
+    intro ms hv ho
+    obtain ⟨h1, hv'⟩ := specStep_valid ms hv op (ho op (List.mem_cons_self ..))
+    obtain ⟨h2, hv''⟩ := ih (storedAfter ms op) hv' (fun o h => ho o (List.mem_cons_of_mem _ h))
+    exact ⟨by simp only [specHist, h1, h2, expectedHist, storedBy], hv''⟩
+
+/-- For every history of appends of valid messages and reads on one object (starting with the empty
+capture): every `parse_msg(i)` returns the i-th of the messages appended so far (`None` beyond them),
+every `parse_all(skip, count)` exactly the corresponding slice of the messages appended so far (`False`
+for a skip beyond them) - whatever was read, missed or appended before -, and the file at the end is
+byte for byte the file one `append_all` of all the messages produces. -/
+theorem history_reads_stored (ops : List Op) (ho : ∀ op ∈ ops, ValidOp op) :
+    ∃ fe, runHist ⟨[], 0⟩ ops = (expectedHist [] ops, some fe) ∧
+      appendAll ⟨[], 0⟩ (storedBy [] ops) = .ok ⟨fe.data, fe.data.length⟩ := by
+  obtain ⟨fe, h1, hd⟩ := runHist_spec ops ⟨[], 0⟩
+  obtain ⟨h2, hv⟩ := specHist_valid ops [] (fun m h => by cases h) ho
+  have h0 : fileOf [] = [] := rfl
+  rw [h0] at h2
+  simp only [h2] at h1 hd
+  exact ⟨fe, h1, by rw [hd]; exact fileOf_appendAll _ hv⟩
+
+/-- the same from any state of the object that holds the messages `ms` (cursor anywhere) -/
+theorem history_reads_stored_from (ms : List Msg) (hv : ∀ m ∈ ms, MsgValid m) (pos : Nat) (ops : List Op)
+    (ho : ∀ op ∈ ops, ValidOp op) :
+    ∃ f fe, appendAll ⟨[], 0⟩ ms = .ok f ∧ runHist ⟨f.data, pos⟩ ops = (expectedHist ms ops, some fe) ∧
+      appendAll ⟨[], 0⟩ (storedBy ms ops) = .ok ⟨fe.data, fe.data.length⟩ := by
+  obtain ⟨fe, h1, hd⟩ := runHist_spec ops ⟨fileOf ms, pos⟩
+  obtain ⟨h2, hv'⟩ := specHist_valid ops ms hv ho
+  simp only [h2] at h1 hd
+  exact ⟨_, fe, fileOf_appendAll ms hv, h1, by rw [hd]; exact fileOf_appendAll _ hv'⟩
+
+/-- what a read on a cut file must answer, `st` being the messages completely written before the cut:
+the answer for the stored list `st`; for a skip beyond them also the empty list (when the header of the
+cut record survived) - no message, no exception -/
+def CutAnswer (st : List Msg) (op : Op) (a : Ans) : Prop :=
+  a = expectedAns st op ∨ ∃ s cnt, op = .parseAll (some s) cnt ∧ st.length < s ∧ a = .all (some [])
+
+/-- every read of a list answers as `CutAnswer` demands -/
+def CutAnswers (st : List Msg) : List Op → List Ans → Prop
+  | [], [] => True
+  | op :: ops, a :: as => CutAnswer st op a ∧ CutAnswers st ops as
+  | _, _ => False
+
+theorem specHist_reads {data : Bytes} {st : List Msg} (c : Capture data (st.map stored)) :
+    ∀ (reads : List Op), (∀ op ∈ reads, ReadOp op) →
+      (specHist data reads).2 = data ∧ CutAnswers st reads (specHist data reads).1 := by
+  intro reads
+  induction reads with
+  | nil => intro _; exact ⟨rfl, trivial⟩
+  | cons op reads ih =>
+    intro hr
+    obtain ⟨h2, h1⟩ := fresh_read c op (hr op (List.mem_cons_self ..))
+    obtain ⟨ih2, ih1⟩ := ih (fun o h => hr o (List.mem_cons_of_mem _ h))
+    simp only [specHist, h2]
+    exact ⟨ih2, h1, ih1⟩
+
+/-- Crash after any history: appends of valid messages and reads on one object, then the file is cut at
+ANY byte offset and opened again, then any reads (repeated, out of range, in any order): the answers
+before the crash are those of `history_reads_stored`; after it every read returns exactly what is due
+for the messages completely written before the cut (`CompleteBefore`), never an exception. -/
+theorem history_then_crash (pre reads : List Op) (cut : Nat) (ho : ∀ op ∈ pre, ValidOp op)
+    (hr : ∀ op ∈ reads, ReadOp op) :
+    ∃ fe k as, runHist ⟨[], 0⟩ (pre ++ .truncate cut :: reads) = (expectedHist [] pre ++ .cut :: as, some fe) ∧
+      CompleteBefore (storedBy [] pre) cut k ∧
+      CutAnswers ((storedBy [] pre).take k) reads as ∧
+      (∃ f, appendAll ⟨[], 0⟩ (storedBy [] pre) = .ok f ∧ fe.data = f.data.take cut) := by
+  obtain ⟨fe, h1, hd⟩ := runHist_spec (pre ++ .truncate cut :: reads) ⟨[], 0⟩
+  obtain ⟨h2, hv⟩ := specHist_valid pre [] (fun m h => by cases h) ho
+  have h0 : fileOf [] = [] := rfl
+  rw [h0] at h2
+  obtain ⟨f, k, ha, hk, c⟩ := cut_capture (storedBy [] pre) hv cut
+  have hfd : f.data = fileOf (storedBy [] pre) := by
+    have := fileOf_appendAll (storedBy [] pre) hv
+    rw [ha] at this
+    exact congrArg File.data (Except.ok.inj this)
+  obtain ⟨h4, h3⟩ := specHist_reads c reads hr
+  simp only [specHist_append, h2, specHist, specStep, ← hfd, h4] at h1 hd
+  exact ⟨fe, k, _, h1, hk, h3, f, ha, hd⟩
+
+/-- Crash exactly behind the k-th record (nothing of a later record survives), after any history of
+appends and reads: the object opened on the cut file behaves for EVERY further history - further appends
+included - as a capture holding the first k messages. -/
+theorem history_crash_on_boundary (pre post : List Op) (k : Nat) (ho : ∀ op ∈ pre, ValidOp op)
+    (hp : ∀ op ∈ post, ValidOp op) :
+    ∃ fk fe, appendAll ⟨[], 0⟩ ((storedBy [] pre).take k) = .ok fk ∧
+      runHist ⟨[], 0⟩ (pre ++ .truncate fk.data.length :: post)
+        = (expectedHist [] pre ++ .cut :: expectedHist ((storedBy [] pre).take k) post, some fe) ∧
+      appendAll ⟨[], 0⟩ (storedBy ((storedBy [] pre).take k) post) = .ok ⟨fe.data, fe.data.length⟩ := by
+  obtain ⟨h2, hv⟩ := specHist_valid pre [] (fun m h => by cases h) ho
+  have h0 : fileOf [] = [] := rfl
+  rw [h0] at h2
+  have hvk : ∀ m ∈ (storedBy [] pre).take k, MsgValid m := fun m hm => hv m (List.mem_of_mem_take hm)
+  obtain ⟨h3, hv3⟩ := specHist_valid post _ hvk hp
+  have hsplit : fileOf (storedBy [] pre)
+      = fileOf ((storedBy [] pre).take k) ++ fileOf ((storedBy [] pre).drop k) := by
+    rw [← fileOf_append, List.take_append_drop]
+  have htake : (fileOf (storedBy [] pre)).take (fileOf ((storedBy [] pre).take k)).length
+      = fileOf ((storedBy [] pre).take k) := by
+    rw [hsplit, List.take_left]
+  obtain ⟨fe, h1, hd⟩ := runHist_spec
+    (pre ++ .truncate (fileOf ((storedBy [] pre).take k)).length :: post) ⟨[], 0⟩
+  simp only [specHist_append, h2, specHist, specStep, htake, h3] at h1 hd
+  exact ⟨_, fe, fileOf_appendAll _ hvk, h1, by rw [hd]; exact fileOf_appendAll _ hv3⟩
+
 /-! ### non-vacuity -/
 
 /-- a stored list with all classes of messages: v0 Tx, v1 Rx 8-PSK, NOPE indication -/
@@ -305,5 +602,34 @@ example : ∀ m ∈ ([.tx ⟨0, some 0, some 0, some 0, some (List.replicate 148
         some (-1280), some (List.replicate 444 (-127))⟩,
       .rx ⟨1, some 5, some 3, some (-120), some 0, none, true, none, none, some 1280, none⟩] : List Msg),
     MsgValid m := by decide +kernel
+
+/-- a history with an out-of-range access and a partial read before further appends, then reads of the
+new messages: the operations satisfy the hypotheses of `history_reads_stored` / `history_then_crash` -/
+def exampleHist : List Op :=
+  [.appendAll [.tx ⟨0, some 0, some 0, some 0, some (List.replicate 148 1)⟩,
+               .rx ⟨1, some 5, some 3, some (-120), some 0, none, true, none, none, some 1280, none⟩],
+   .parseMsg 5, .parseAll (some 3) none, .parseMsg 0,
+   .appendMsg (.tx ⟨1, some 2715647, some 7, some 255, some (List.replicate 444 0)⟩),
+   .parseMsg 2, .parseAll (some 2) (some 1), .parseAll none none]
+
+example : ∀ op ∈ exampleHist, ValidOp op := by decide +kernel
+
+/-- ... and the answers demanded are not trivial: `None`, `False`, the first message, then the message
+appended after the failed accesses, by index and by skip -/
+example : expectedHist [] exampleHist =
+    [.done, .res .none, .all none,
+     .res (.msg (.tx ⟨0, some 0, some 0, some 0, some (List.replicate 148 1)⟩)),
+     .done,
+     .res (.msg (.tx ⟨1, some 2715647, some 7, some 255, some (List.replicate 444 0)⟩)),
+     .all (some [.tx ⟨1, some 2715647, some 7, some 255, some (List.replicate 444 0)⟩]),
+     .all (some [.tx ⟨0, some 0, some 0, some 0, some (List.replicate 148 1)⟩,
+                 .rx (C01.carried ⟨1, some 5, some 3, some (-120), some 0, none, true, none, none, some 1280, none⟩),
+                 .tx ⟨1, some 2715647, some 7, some 255, some (List.replicate 444 0)⟩])] := by
+  decide +kernel
+
+example : ∀ op ∈ ([.parseMsg 0, .parseMsg 7, .parseAll (some 1) (some 2), .parseAll none none] : List Op), ReadOp op := by
+  intro op h
+  simp only [List.mem_cons, List.mem_nil_iff, or_false] at h
+  rcases h with rfl | rfl | rfl | rfl <;> simp [ReadOp]
 
 end OsmoVerif.Props.C15
